@@ -13,22 +13,25 @@ package main
 
 import (
 	"fmt"
+	"os"
 	"strings"
 
 	"github.com/makiuchi-d/gozxing"
 )
 
 func init() {
+	// IMGPATH1D_ONLY=1 (self-test aid): run only this package's suites, to see what THEY detect
+	only := os.Getenv("IMGPATH1D_ONLY") != ""
 	prev3 := suites["C03"]
 	suites["C03"] = func(c *Ctx) {
-		if prev3 != nil {
+		if prev3 != nil && !only {
 			prev3(c)
 		}
 		imgpath1dSuite(c, false)
 	}
 	prev9 := suites["C09"]
 	suites["C09"] = func(c *Ctx) {
-		if prev9 != nil {
+		if prev9 != nil && !only {
 			prev9(c)
 		}
 		imgpath1dSuite(c, true)
